@@ -2,7 +2,7 @@ CONSTANT Good = {"t1", "t2"}
 CONSTANT Invalid = {"i1"}
 CONSTANT Unparseable = {"x1"}
 CONSTANT Versions = {1, 2}
-CONSTANT MalformedKinds = {"nohash", "strversion"}
+CONSTANT MalformedKinds = {"strversion"}
 CONSTANT Dev = {}
 SPECIFICATION Spec
 INVARIANT TypeOK
